@@ -90,7 +90,7 @@ func (cl *Clause) LabelString() string {
 	return "[" + strings.Join(cl.Labels, ",") + "]"
 }
 
-var clauseKw = regexp.MustCompile(`^(requires|ensures|invariant|modifies|alias|safety|noOverread|ghostset|ghost|loop|trusted|inline|decreases|assume|fresh|use|candidates|lockdiscipline|guarded)\b(\[[^\]]*\])?\s*(.*)$`)
+var clauseKw = regexp.MustCompile(`^(requires|ensures|invariant|modifies|alias|safety|noOverread|ghostset|ghost|loop|trusted|inline|decreases|assume|fresh|use|candidates|lockdiscipline|guarded|structural)\b(\[[^\]]*\])?\s*(.*)$`)
 
 func (p *Program) parseContractText(pkg, file, text string) error {
 	lines := strings.Split(text, "\n")
@@ -250,7 +250,7 @@ func (p *Program) parseContractText(pkg, file, text string) error {
 		case "inline":
 			cur.Inline = true
 			continue
-		case "safety", "lockdiscipline":
+		case "safety", "lockdiscipline", "structural":
 			cur.Clauses = append(cur.Clauses, &Clause{Kind: kw, Labels: labels, Text: rest, Line: i + 1, File: file})
 			continue
 		}
